@@ -34,12 +34,12 @@ TRUSTED = [
 ASSUMPTIONS = [
     "weights are >= 0 with a positive sum over the unmasked members of every cell (all-zero weights raise ZeroDivisionError in np.average: recorded by the malformed stream, outside the property)",
     "categorical / mode predictions are masked row-wise (a member's whole class vector for a sample), as OnlineSelector builds them; loc and scale of a normal member carry the same mask",
-    "finite float inputs (no NaN / inf)",
+    "finite float inputs at the unmasked positions (no NaN / inf); under a mask anything may be stored (nan, +-inf, 1e308: exercised)",
     "a cell whose unmasked members all have weight 0 is undefined (numpy.ma: masked, or NaN for 0-d arrays) and is skipped",
 ]
 RULE = ("per aggregator: members 1..8, sample shapes 0-d..3-d, weights None/uniform/normalised/unnormalised/with zeros/dyadic, plain and masked, dyadic and "
         "general floats (plus 'members agree, scale ~ 0' for MixedNormal), from the seed; every case runs every option of the aggregator plus the metamorphic "
-        "variants (None vs uniform weights, a permutation of members with weights, junk under the mask, a fully masked member removed, zero-weight members "
+        "variants (None vs uniform weights, a permutation of members with weights, 7 kinds of data under the mask - finite, nan, +inf, -inf, 1e308, mixed, np.ma.masked_invalid - with tolerance 0, a fully masked member removed, zero-weight members "
         "removed, one member split into two with 1/4 and 3/4 of its weight). non-trivial = at least 2 members and (non-uniform weights or a mask)")
 
 F_MEAN, F_MN, F_CONF, F_ENT, F_MODE, F_MODE_TODAY = 1901, 1902, 1903, 1904, 1905, 1906
@@ -112,8 +112,36 @@ def wkind_of(ws):
     return k
 
 
-def scalar_arrays(case, key="vals", junk=False):
-    """Member arrays of shape case['shape'] (plain or masked); junk=True replaces the data under the mask."""
+# what may be stored UNDER a mask: it must never reach an output (np.ma.masked_invalid leaves nan / inf there;
+# NaN-filled buffers for the samples a member did not predict; overflowed values)
+JUNKS = ("finite", "nan", "+inf", "-inf", "huge", "mixed", "masked_invalid")
+_JUNK_VALUES = {"nan": [np.nan], "+inf": [np.inf], "-inf": [-np.inf], "huge": [1e308, -1e308],
+                "mixed": [np.nan, np.inf, 1e308, -np.inf, -1e308, 0.0, np.nan, -1.7976931348623157e308]}
+
+
+def hide(data, mk, junk, i, finite):
+    """data with the entries under the mask mk replaced according to the junk mode (deterministic in the position)."""
+    if junk is None:
+        return data
+    if junk == "finite":
+        return np.where(mk, finite(data), data)
+    vals = _JUNK_VALUES["nan" if junk == "masked_invalid" else junk]
+    if junk == "masked_invalid":
+        vals = [np.nan, np.inf, np.nan, -np.inf]
+    idx = (np.arange(data.size).reshape(data.shape) * 3 + i * 5) % len(vals)
+    return np.where(mk, np.array(vals, dtype=float)[idx], data.astype(float))
+
+
+def masked(data, mk, junk):
+    if junk == "masked_invalid":
+        a = np.ma.masked_invalid(data)  # the mask is derived from the nan / inf entries: exactly mk
+        assert np.array_equal(np.ma.getmaskarray(a), mk)
+        return a
+    return np.ma.array(data, mask=mk)
+
+
+def scalar_arrays(case, key="vals", junk=None):
+    """Member arrays of shape case['shape'] (plain or masked); junk: what is stored under the mask (see JUNKS)."""
     shape = tuple(case["shape"])
     out = []
     for i in range(case["n"]):
@@ -124,13 +152,11 @@ def scalar_arrays(case, key="vals", junk=False):
             out.append(data)
         else:
             mk = np.array(case["mask"][i], dtype=bool).reshape(shape)
-            if junk:
-                data = np.where(mk, data * 3 + 17, data)
-            out.append(np.ma.array(data, mask=mk))
+            out.append(masked(hide(data, mk, junk, i, lambda d: d * 3 + 17), mk, junk))
     return out
 
 
-def row_arrays(case, junk=False):
+def row_arrays(case, junk=None):
     """Member arrays of shape sample-shape + (K,), masked row-wise."""
     shape = tuple(case["shape"])
     K = case["K"]
@@ -142,9 +168,7 @@ def row_arrays(case, junk=False):
         else:
             mk = np.array(case["mask"][i], dtype=bool).reshape(shape)
             mk = np.broadcast_to(mk[..., None], shape + (K,)).copy()
-            if junk:
-                data = np.where(mk, 1.0 - data, data)
-            out.append(np.ma.array(data, mask=mk))
+            out.append(masked(hide(data, mk, junk, i, lambda d: 1.0 - d), mk, junk))
     return out
 
 
@@ -391,7 +415,7 @@ def call_impl(zero_d, label, f):
 
 
 # ----------------------------------------------------------------------------------------------- MeanAggregator
-def impl_mean(case, junk=False):
+def impl_mean(case, junk=None):
     from deephyper.ensemble.aggregator import MeanAggregator
 
     y = scalar_arrays(case, junk=junk)
@@ -485,7 +509,13 @@ def metamorphic(case, imp, impl, tols, m, name):
     """uniform = None; permutation invariance; masked entries ignored (junk under the mask, masked member removed).
     A failure carries the partner case and its outputs (f.partner) so that the caller can classify it."""
     def pair(label, other_case, tl, **kw):
-        other = impl(other_case, **kw)
+        try:
+            other = impl(other_case, **kw)
+        except Fail as f:  # the variant raised / returned a malformed result where the base run did not
+            f.clause = "%s:%s:%s" % (name, label, f.clause)
+            if isinstance(f.detail, dict):
+                f.detail.update(kw)
+            raise
         try:
             for k in tl:
                 close_cells("%s:%s:%s" % (name, label, k), imp[k], other[k], tl[k], m)
@@ -506,7 +536,16 @@ def metamorphic(case, imp, impl, tols, m, name):
     if pc is not None:
         pair("perm_invariant", pc, tols)
     if case["mask"] is not None:
-        pair("masked_data_ignored", case, {k: [Fraction(0)] * len(v) for k, v in tols.items()}, junk=True)
+        # whatever is stored under the mask (finite junk, nan, +-inf, 1e308, a mix, or arrays built by np.ma.masked_invalid):
+        # bit-identical outputs (tolerance 0)
+        zero = {k: [Fraction(0)] * len(v) for k, v in tols.items()}
+        for jm in JUNKS:
+            try:
+                pair("masked_data_ignored", case, zero, junk=jm)
+            except Fail as f:
+                if isinstance(f.detail, dict):
+                    f.detail["under_the_mask"] = jm
+                raise
         i = fully_masked_member(case)
         if i is not None:
             pair("masked_member_ignored", without_member(case, i), tols)
@@ -516,13 +555,11 @@ check_mean = guarded(check_mean_body)
 
 
 # ----------------------------------------------------------------------------------------------- MixedNormalAggregator
-def impl_mn(case, junk=False):
+def impl_mn(case, junk=None):
     from deephyper.ensemble.aggregator import MixedNormalAggregator
 
     locs = scalar_arrays(case, "vals", junk=junk)
     scales = scalar_arrays(case, "vals2", junk=junk)
-    if junk and case["mask"] is not None:
-        scales = [np.ma.array(np.abs(np.ma.getdata(a)), mask=np.ma.getmaskarray(a)) for a in scales]
     y = [dict(loc=a, scale=b) for a, b in zip(locs, scales)]
     ws = weights_of(case)
     n = ncells(case["shape"])
@@ -620,7 +657,7 @@ check_mn = guarded(check_mn_body)
 
 
 # ----------------------------------------------------------------------------------------------- MixedCategoricalAggregator
-def impl_cat(case, junk=False):
+def impl_cat(case, junk=None):
     from deephyper.ensemble.aggregator import MixedCategoricalAggregator
 
     y = row_arrays(case, junk=junk)
@@ -741,7 +778,7 @@ check_cat = guarded(check_cat_body)
 
 
 # ----------------------------------------------------------------------------------------------- ModeAggregator
-def impl_mode(case, junk=False):
+def impl_mode(case, junk=None):
     from deephyper.ensemble.aggregator import ModeAggregator
 
     y = row_arrays(case, junk=junk)
